@@ -29,7 +29,7 @@ func (c20) ID() string { return "C20" }
 func (c20) Meta(tier string) engine.Meta {
 	return engine.Meta{
 		Level: "model_checking",
-		Rule: "all criteria trees of depth <= 2 over binary AND / OR, unary NOT and 12 leaf conditions (=, <>, >, >=, <, <=, IN, BETWEEN, LIKE, IS NULL on number, string, boolean and time columns; operands that are literals, names bound in the run-time environment and unbound names) (thorough: depth 3 over 3 leaves), plus every adversarial operand (quotes, backslashes, comment markers, newline, NUL, non-ASCII, SQL fragments; numbers -1, 0.5, 2^53, 2^63, 1e300, -0) in every string- / number-taking condition inside four tree contexts. Oracle: the text is re-read by a tokenizer + precedence reader with standard SQL precedence; the resulting tree must equal the input tree modulo flattening of AND / OR; each operand must be exactly one token that decodes to the operand (strings) / parses back to the same double in plain numeric form / is 1 or 0 / from_unixtime(n); bound names appear as their values, unbound names as back-quoted columns. non-trivial = trees with at least one connective",
+		Rule: "all criteria trees of depth <= 2 over binary AND / OR, unary NOT and 12 leaf conditions (=, <>, >, >=, <, <=, IN, BETWEEN, LIKE, IS NULL on number, string, boolean and time columns; operands that are literals, names bound in the run-time environment and unbound names) (thorough: depth 3 over 3 leaves), plus every adversarial operand (quotes, backslashes, comment markers, newline, NUL, non-ASCII, SQL fragments; numbers -1, 0.5, 2^53, 2^63, 1e300, -0) in every string- / number-taking condition inside four tree contexts. Each criteria value (operand slices built with spare capacity) is lowered twice and each result rendered twice; all four texts must be identical. Oracle: the text is re-read by a tokenizer + precedence reader with standard SQL precedence; the resulting tree must equal the input tree modulo flattening of AND / OR; each operand must be exactly one token that decodes to the operand (strings) / parses back to the same double in plain numeric form / is 1 or 0 / from_unixtime(n); bound names appear as their values, unbound names as back-quoted columns. non-trivial = trees with at least one connective",
 		Bound: "depth 2 × 11 leaves (thorough depth 3 × 3 leaves); 14 adversarial strings, 8 numbers",
 		Assumptions: []string{"double-quoted literals with backslash escapes (the generator's quoting convention) are read the way MySQL reads them: a backslash escapes the next character"},
 	}
@@ -138,11 +138,14 @@ func (c20) Generate(tier string, yield func(*engine.Case) bool) {
 		if !ok {
 			return
 		}
-		b, _ := json.Marshal(struct {
-			C *crit   `json:"c"`
-			B c20Bind `json:"b"`
-		}{c, bind})
-		if !yield(&engine.Case{Family: fam, Key: fmt.Sprintf("%s|u=%v|sv=%q", c, bind.U, bind.SV), Data: b}) {
+		lazy := func() json.RawMessage {
+			b, _ := json.Marshal(struct {
+				C *crit   `json:"c"`
+				B c20Bind `json:"b"`
+			}{c, bind})
+			return b
+		}
+		if !yield(&engine.Case{Family: fam, Key: fmt.Sprintf("%s|u=%v|sv=%q", c, bind.U, bind.SV), Lazy: lazy}) {
 			ok = false
 		}
 	}
@@ -316,7 +319,8 @@ func toCriteria(c *crit) ext.Criteria {
 		}
 		return g
 	}
-	ops := make([]ast.Expr, len(c.Operands))
+	// the operand slice has spare capacity, as a slice built with append usually has
+	ops := make([]ast.Expr, len(c.Operands), len(c.Operands)+3)
 	for i, o := range c.Operands {
 		ops[i] = toAstOperand(o)
 	}
@@ -437,7 +441,7 @@ func (c20) Run(c *engine.Case) *engine.Result {
 	if err := json.Unmarshal(c.Data, &d); err != nil {
 		panic(err)
 	}
-	res := &engine.Result{Execs: 1, NonTrivial: len(d.C.Kids) > 0}
+	res := &engine.Result{NonTrivial: len(d.C.Kids) > 0}
 	env1 := types.NewEnv()
 	for _, n := range []string{"a", "s", "b", "t", "u", "sv", "n2", "tv", "bv"} {
 		env1.Put(n, c20Model[n])
@@ -461,7 +465,22 @@ func (c20) Run(c *engine.Case) *engine.Result {
 				err = fmt.Errorf("panic: %v", r)
 			}
 		}()
-		text, err = ext.CompileToSql(toCriteria(d.C), env1)(env)
+		// ONE criteria value is lowered twice and each result rendered twice: the text judged below
+		// is the LAST one, and all four must be the same text
+		cr := toCriteria(d.C)
+		var first string
+		for i := 0; i < 2 && err == nil; i++ {
+			f := ext.CompileToSql(cr, env1)
+			for j := 0; j < 2 && err == nil; j++ {
+				text, err = f(env)
+				res.Execs++
+				if i+j == 0 {
+					first = text
+				} else if err == nil && text != first {
+					res.Violations = append(res.Violations, vf("sql-depends-on-history", "%s: the same criteria value gives %q and then %q", d.C, first, text))
+				}
+			}
+		}
 	}()
 	if err != nil {
 		res.Outcome = "ERROR " + stable(err.Error())
